@@ -609,7 +609,7 @@ Record disk_ok (table : list (list Z)) (d : disk) : Prop := {
    snapshots (fresh) or on one whose newest complete snapshot it is about to load (reopened) *)
 Definition start_ok (table : list (list Z)) (n : Z) (st0 : pstate) : Prop :=
   1 <= n /\ ps_t st0 = init_state /\ ps_base st0 = [] /\ ps_safe st0 = [] /\
-  disk_ok table (ps_disk st0) /\
+  disk_ok table (ps_disk st0) /\ ps_grabbed st0 = None /\
   ((d_snp (ps_disk st0) = [] /\ ps_epoch_n st0 = [(0, O)] /\ ps_pol st0 = pol_init n) \/
    (exists r, recover_writer table n (crash_image (ps_disk st0) []) = RecOk r /\
               ps_pol st0 = r_pol r /\ ps_epoch_n st0 = [])).
@@ -766,7 +766,7 @@ Theorem start_ok_pinv : forall table n st0, start_ok table n st0 ->
   length (p_live (ps_pol st0)) = Nat.min (length (d_snp (ps_disk st0))) (Z.to_nat n) /\
   p_live (ps_pol st0) = lastn (Z.to_nat n) (p_deletable (ps_pol st0) ++ p_live (ps_pol st0)).
 Proof.
-  intros table n st0 [Hn [Ht [Hb [Hsafe [DK Hcase]]]]].
+  intros table n st0 [Hn [Ht [Hb [Hsafe [DK [Hgrab Hcase]]]]]].
   pose proof (disk_ok_files table _ DK) as HF.
   assert (Hpol : pol_ok (ps_pol st0) (snap_ids (ps_disk st0)) /\ p_n (ps_pol st0) = n /\
                  length (p_live (ps_pol st0)) = Nat.min (length (d_snp (ps_disk st0))) (Z.to_nat n) /\
